@@ -204,6 +204,30 @@ def run_shard(ctx):
                     res.count('non_required_consumer_died_for_good')
                 except Exception as e:
                     res.inconclusive.append(f'scenario crashed the harness: {type(e).__name__}: {e}')
+        # a consumer that is not a required output falls silent for longer than the connection timeout: the others keep moving
+        if base['family'] == 'tee' and not base['required']:
+            for secs in ([10.0] if ctx.quick else [1.0, 10.0, 10.0]):
+                scn = json.loads(json.dumps(base))
+                for n_ in scn['nodes']:
+                    if n_['id'] == 'k1':
+                        n_['beh']['stall'] = {'seq': rng.randint(3, 12), 'secs': secs}
+                scn['faults'] = []
+                scn['stop_after'] = {'node': 'k1', 'evs': ['stall-begin'], 'stall-begin_ms': int(secs * 1000) + 3000}
+                try:
+                    w = world.run_scenario(scn)
+                    res.evaluations += 1
+                    res.count('stalled_non_required_consumer_cases')
+                    sb = next((e for e in w.clog if e['ev'] == 'stall-begin'), None)
+                    if sb is not None:
+                        evs = [e['t'] for e in w.clog if e['ev'] == 'process' and e['node'] == 'sink' and e['ins'] and e['t'] > sb['t']]
+                        gaps = [b_ - a_ for a_, b_ in zip([sb['t']] + evs, evs + [w.t_end])]
+                        res.maxi('max_gap_at_sibling_of_stalled_consumer_ms', int(max(gaps) / 1e6))
+                        if max(gaps) > B_NS:
+                            res.violation('sibling-starved-by-stalled-consumer', f'sink received nothing for {max(gaps) / 1e9:.1f} s while its sibling consumer k1 (not a required output) was stalled for {secs} s', scn)
+                        else:
+                            res.nontrivial(f'stall|{secs}|{w.schedule_signature()}')
+                except Exception as e:
+                    res.inconclusive.append(f'scenario crashed the harness: {type(e).__name__}: {e}')
         if b == 0 and ctx.shard == 0:
             res.sample({'family': base['family'], 'required': base['required'], 'reference_steps': N, 'kill_points': points[:5]})
     return res
